@@ -455,6 +455,23 @@ class Monitor:
                          f"over-limit demands: {exp_loop}")
             else:
                 for sid in named:
+                    # F22: the index that trips the guard was inherited from an earlier time step
+                    # over a time-shifted connection inside the group, while the simulator performs
+                    # no more than max_loop_iterations sub-steps within this time step
+                    for bad in exp_loop[sid]:
+                        same_t = [x for x in self.D[sid] if x[0] == bad[0]]
+                        spans = [max(x[j] for x in same_t) - min(x[j] for x in same_t)
+                                 for j in range(1, len(bad))]
+                        carried = [x for x in same_t if any(x[1:]) and any(
+                            c not in ("init", "ext") and c[1][0] < x[0] for c in self.D[sid][x])]
+                        if carried and all(s < T.max_loop for s in spans):
+                            self.add("C09", "loop-interrupted",
+                                     f"{sid} performs only {len(same_t)} sub-step(s) at time {bad[0]} "
+                                     f"({sorted(same_t)}) but run() stopped with the loop guard at "
+                                     f"{bad}: the sub-step index was carried over from time "
+                                     f"{bad[0] - 1} by a time-shifted connection",
+                                     cls="sub-step-index-carried-over-time-shift", sim=sid)
+                            break
                     ex = [x for x in exp_loop[sid] if x in self.Xset[sid]]
                     if ex:
                         self.add("C09", "over-limit-step-executed",
